@@ -16,5 +16,6 @@ Lemma link_no_int_cast : Gen.Boundary.reflect_count_int64_cast = false.
 Proof. reflexivity. Qed.
 Lemma link_structure :
   Gen.Boundary.copies_input = true /\ Gen.Boundary.periodic_map_is_mod_one = true
-  /\ Gen.Boundary.periodic_then_reflective = true /\ Gen.Boundary.strict_is_complement_of_designated = true.
+  /\ Gen.Boundary.periodic_then_reflective = true /\ Gen.Boundary.strict_is_complement_of_designated = true
+  /\ Gen.Boundary.designations_reach_the_runners_under_their_own_names = true.
 Proof. repeat split. Qed.
